@@ -11,12 +11,12 @@ P == INSTANCE ExportImportProp WITH src <- 0, arc <- 0, dka <- 0, cur <- 0, st <
 
 (* ------------------------------ properties ----------------------------- *)
 Dg(n) == "sha256:" \o n
-SrcRec == [objs |-> {[d |-> Dg(n), sha |-> n] : n \in DOMAIN sc.nodes},
+SrcRec == [objs |-> {[d |-> Dg(n), sha |-> n, a |-> "sha256", h |-> n] : n \in DOMAIN sc.nodes},
            edges |-> UNION {{[p |-> Dg(n), c |-> Dg(sc.nodes[n].kids[i].n), role |-> "x", i |-> i] :
                               i \in 1..Len(sc.nodes[n].kids)} : n \in DOMAIN sc.nodes},
            top |-> Dg(sc.want), tag |-> "", single |-> FALSE]
 ImpRec == [ok |-> phase = "done",
-           objs |-> {[d |-> Dg(n), sha |-> n] : n \in tgt.blobs \cup tgt.mans},
+           objs |-> {[d |-> Dg(n), sha |-> n, a |-> "sha256", h |-> n] : n \in tgt.blobs \cup tgt.mans},
            top |-> Dg(tgt.tag), want |-> Dg(sc.want)]
 DkRec == [ok |-> phase = "done", found |-> tgt.tag = "dkman" /\ tgt.dk.cfg \in tgt.blobs /\ Range(tgt.dk.layers) \subseteq tgt.blobs,
           cfg |-> tgt.dk.cfg, layers |-> tgt.dk.layers]
